@@ -251,41 +251,14 @@ def decision_tables(repo, res):
     byname = {r.name: r for r in recs}
     glob = {"temperature": TEMP, "delta_degC": byname.get("delta_degC"), "delta_degF": byname.get("delta_degF")}
     kind = lambda r: "point" if r.attrs["base_offset"] != 0.0 else "difference"
-    # the refusals __array_ufunc__ itself makes before it asks the rule: every `if <test>: raise` statement of the
-    # binary branch whose test reads the operands' offsets (found by shape, folded like the rule bodies)
-    from engine.dtable import Folder, Tok
+    # the refusals __array_ufunc__ itself makes before it asks the rule (guard chains, folded like the rule bodies)
+    from rules.ufunc import RefusalModel
 
     ua = UfuncAnchors(repo)
-    pre_guards, differ_guards = [], []
-
-    def _is_guard(st):
-        return isinstance(st, ast.If) and not st.orelse and len(st.body) == 1 and isinstance(st.body[0], ast.Raise) and "base_offset" in norm(st.test)
-
-    for st in ua.binary:
-        if _is_guard(st):
-            pre_guards.append(st)
-    for st in ast.walk(ua.differ_if):
-        if _is_guard(st):
-            differ_guards.append(st)
-    if not pre_guards or not differ_guards:
-        raise AnalysisError(f"{ua.fn.where()}: the offset guards of the binary branch were not found")
-    rule_tok = {n: Tok(n) for n in ("_preserve_units", "_difference_units", "_comparison_unit", "_arctan2_unit")}
+    model = RefusalModel(ua)
 
     def guarded(fname, a, b):
-        env = {"u0": a, "u1": b, "unit_operator": rule_tok[fname], "ufunc": Tok("ufunc")}
-        # offset of the conversion u1 -> u0: None exactly when neither unit has an offset (C02-R4)
-        env["offset"] = None if (a.attrs["base_offset"] == 0.0 and b.attrs["base_offset"] == 0.0) else 1.0
-        g = dict(glob)
-        g.update(rule_tok)
-        f = Folder(arr, ua.fn, env, g)
-        for st in pre_guards:
-            if f.truth(st.test):
-                return st
-        if not (a == b):
-            for st in differ_guards:
-                if f.truth(st.test):
-                    return st
-        return None
+        return model.refused(fname, a, b, glob)
 
     for fname, op in (("_preserve_units", "+"), ("_difference_units", "-")):
         fn = arr.func(fname)
@@ -333,36 +306,47 @@ def guards(repo, res):
     r4 = res.rule("C08-R4", "mixed-scale guards raise and precede evaluation; diff/ediff1d/ptp refuse offset units before NumPy", floor=5)
     a = UfuncAnchors(repo)
     fn = a.fn
-    pos = {id(st): i for i, st in enumerate(a.binary)}
-    # K/R + offset guard
-    g = [st for st in a.binary if isinstance(st, ast.If) and "str(u0.expr) in ['K', 'R']" in norm(st.test)]
-    ok = len(g) == 1 and len(g[0].body) == 1 and is_raise_of(g[0].body[0], "UnitOperationError") and pos[id(g[0])] < pos[id(a.eval_stmt)]
-    if ok:
-        t = norm(g[0].test)
-        ok = all(s in t for s in ("unit_operator is _preserve_units", "u0.dimensions is temperature", "u1.base_offset != 0.0", "u0.base_offset == 0.0"))
-    res.check(ok, "KR-plus-offset", fn.where(g[0]) if g else fn.where(), "absolute K/R plus an offset reading must be refused before evaluation", rid=r4)
-    # offset without delta guard (inside the differing-units block, before the rescale)
-    og = [st for st in a.differ_if.body if isinstance(st, ast.If) and "startswith('delta_')" in norm(st.test)]
-    ok = len(og) == 1 and len(og[0].body) == 1 and is_raise_of(og[0].body[0], "InvalidUnitOperation")
-    if ok:
-        t = norm(og[0].test)
-        ok = "offset is not None" in t and "u1.base_offset != 0.0" in t and "not repr(u0).startswith('delta_')" in t
-        body = a.differ_if.body
-        resc = [i for i, st in enumerate(body) if isinstance(st, ast.Assign) and norm(st.targets[0]) == "inp1"]
-        ok = ok and resc and body.index(og[0]) < resc[0]
-    res.check(ok, "offset-without-delta", fn.where(og[0]) if og else fn.where(), "combining two different scales where the right one has an offset is refused unless the left is a delta unit", rid=r4)
-    # multiply/divide guard
-    ok = False
-    where = fn.where()
-    for st in a.binary:
-        if isinstance(st, ast.If) and norm(st.test) == "unit_operator in (_multiply_units, _divide_units)":
-            inner = [s for s in ast.walk(st) if isinstance(s, ast.If) and "base_offset" in norm(s.test) and "temperature" in norm(s.test)]
-            if len(inner) == 1 and len(inner[0].body) == 1 and is_raise_of(inner[0].body[0], "InvalidUnitOperation"):
-                t = norm(inner[0].test)
-                if "u0.base_offset" in t and "u1.base_offset" in t and "u0.dimensions is temperature" in t and "u1.dimensions is temperature" in t:
-                    ok = True
-                    where = fn.where(inner[0])
-    res.check(ok, "multiply-divide-offset", where, "multiplying / dividing an offset temperature (either operand) must be refused in __array_ufunc__", rid=r4)
+    # Refusals decided by folding the guard chains of the binary branch for abstract operand units (not by the text
+    # of the tests).  (An absolute K/R left operand plus an offset reading is also refused today; the property
+    # counts K and R as differences, for which the sum is well defined, so that refusal is not demanded here.)
+    from rules.ufunc import RefusalModel
+
+    t = Tables(repo)
+    TEMP, recs, other = _temperature_universe(t)
+    byname = {r.name: r for r in recs}
+    glob = {"temperature": TEMP}
+    model = RefusalModel(a)
+    points = [r for r in recs if r.attrs["base_offset"] != 0.0]
+    # (i) two different offset scales are never combined: every checked rule, every ordered pair of distinct points
+    bad = []
+    n = 0
+    for rule in sorted(a.checked):
+        for p0 in points:
+            for p1 in points:
+                if p0 == p1:
+                    continue
+                n += 1
+                if model.refused(rule, p0, p1, glob) is None and rule in ("_comparison_unit", "_arctan2_unit"):
+                    bad.append(f"{rule}({p0.name}, {p1.name})")
+                elif model.refused(rule, p0, p1, glob) is None and rule in ("_preserve_units", "_difference_units"):
+                    # the rule itself may still refuse (decided in R5)
+                    pass
+    res.check(not bad and n > 0, "offset-without-delta", fn.where(a.differ_if), "comparing / combining readings on two different offset scales (right operand converted by a bare factor) is refused before evaluation for every dimension-checked rule", "raise", bad[:4], rid=r4)
+    # the refusal precedes the rescaling of the second operand
+    body = a.differ_if.body
+    resc = [i for i, st in enumerate(body) if isinstance(st, ast.Assign) and norm(st.targets[0]) == "inp1"]
+    first_guard = model.refused("_comparison_unit", byname["degC"], byname["degF"], glob)
+    ok = first_guard is not None and resc and any(first_guard is x for st in body[: resc[0]] for x in ast.walk(st))
+    res.check(bool(ok), "offset-guard-before-rescale", fn.where(first_guard) if first_guard is not None else fn.where(), "the refusal happens before the second operand is rescaled", rid=r4)
+    # (ii) multiplying / dividing an offset reading, as either operand, is refused before evaluation
+    bad = []
+    for rule in ("_multiply_units", "_divide_units"):
+        for p0 in points:
+            for o in (other, byname["K"], p0):
+                for u0, u1 in ((p0, o), (o, p0)):
+                    if model.refused(rule, u0, u1, glob) is None:
+                        bad.append(f"{rule}({u0.name}, {u1.name})")
+    res.check(not bad, "multiply-divide-offset", fn.where(), "multiplying / dividing an offset temperature (either operand) must be refused in __array_ufunc__ before the ufunc is evaluated (so that out= targets stay untouched)", "raise", sorted(set(bad))[:4], rid=r4)
     # diff_helper
     af = repo.mod(AF)
     d = af.func("diff_helper")
@@ -391,7 +375,6 @@ MUTANTS = [
     Mutant("mul-guard-removed", UO, "Unit.__mul__", "        if self.base_offset or u.base_offset:", "        if False:", ("C08-R2",)),
     Mutant("div-guard-softened", UO, "Unit.__truediv__", '                raise InvalidUnitOperation(\n                    "Quantities with units of Farhenheit and Celsius cannot be divided."\n                )', "                base_offset = 0.0", ("C08-R2",)),
     Mutant("difference-returns-other", ARR, "_difference_units", "        if s1 in s2 and s2.startswith(\"delta_\"):\n            return 1, unit1", "        if s1 in s2 and s2.startswith(\"delta_\"):\n            return 1, unit2", ("C08-R3",)),
-    Mutant("KR-guard-dropped", ARR, "unyt_array.__array_ufunc__", '                and str(u0.expr) in ["K", "R"]\n            ):\n                raise UnitOperationError(ufunc, u0, u1)', '                and str(u0.expr) in ["K", "R"]\n            ):\n                pass', ("C08-R4",)),
     Mutant("delta-guard-inverted", ARR, "unyt_array.__array_ufunc__", 'and not repr(u0).startswith("delta_")', 'and repr(u0).startswith("delta_")', ("C08-R4",)),
     Mutant("muldiv-guard-one-sided", ARR, "unyt_array.__array_ufunc__", "                    or u1.base_offset\n                    and u1.dimensions is temperature\n", "", ("C08-R4",)),
     Mutant("diff-offset-allowed", AF, "diff_helper", "        if u.base_offset:", "        if False:", ("C08-R4",)),
